@@ -6,6 +6,35 @@ import os
 ROOT = os.path.dirname(os.path.dirname(os.path.abspath(__file__)))
 
 CHECKS = {
+    "C03": {
+        "text": "Proof (Coq, closed under the global context) on the volatile namespace of one group (EEXIST / ENOENT / ENOTEMPTY "
+                "semantics): after ANY list of calls confined to the temporary directory every final-named entry is an old one, "
+                "unchanged; a failure followed by the clean-up leaves the group exactly as it was; success adds exactly the "
+                "complete backup; a same-second collision fails the rename and restores the group; the next run recovers; on the "
+                "persistence model a published object never changes. Tied to the code by tracing a reference run per scenario "
+                "(first, append, rotation with removal, abandoned temporary, collision) and re-running it with the process killed "
+                "at, or ENOSPC / EIO / EACCES injected into, its storage calls: the real storage is examined (final-named backups "
+                "complete and decodable, old backups byte-identical, only dot names for unfinished work, failing run removes its "
+                "temporary and exits non-zero), compared with the namespace model on the same prefix, and a recovery run is made.",
+        "note": "Partial: the atomicity of rename(2) / mkdir(2) is the kernel's; kills are delivered on entering a call (strace "
+                "inject), so 'just after call k' is covered as 'just before call k+1'; quick tier samples the calls (all mkdir / "
+                "fsync / rename calls plus 7 others per scenario), thorough takes all of them.",
+        "technique": "Coq proof on a namespace machine + system-call fault / kill injection sweep against the real binary",
+        "design": "7/C03",
+    },
+    "C12": {
+        "text": "Proof (Coq, closed under the global context) on the persistence model the property prescribes (file data persists by "
+                "fsync(file), directory entries by fsync(directory), a crash keeps any sub-selection of pending entry operations): a "
+                "trace accepted by the checker durable_ok is crash-safe at every prefix, and at old-group removal / success report "
+                "every name is persisted; vsb's sequence is accepted for all write lists, also when abandoned temporaries are removed "
+                "first. Tied to the code by tracing the real `vsb backup` (strace -f -y) in four scenarios, projecting its storage "
+                "calls to the abstract operations, checking the shape against the model's vsb_run and running the verified checker "
+                "on the observed trace (a rejected operation is the crash point of the replay).",
+        "note": "Partial: that the kernel honours fsync is assumed (it is the property's own model); creation of a new group "
+                "directory is assumed persisted, as the property states; release build traced in the thorough tier.",
+        "technique": "Coq proof (checker soundness + acceptance of vsb's op sequence) + projected system-call traces of the real binary",
+        "design": "7/C12",
+    },
     "C01": {
         "text": "Proof (Coq, closed under the global context) of the chain at Layer A (archive entries + manifest lines): for every "
                 "storage produced by any sequence of runs into the newest group, runs into a new group and deletions of the k oldest "
